@@ -14,6 +14,7 @@ import (
 	"errors"
 	"fmt"
 	"net"
+	"os"
 	"strings"
 	"sync"
 	"time"
@@ -60,6 +61,7 @@ type e4Peer struct {
 	in     chan byte
 	master bool // the peer's own role: master (equipment) iff the connection under test is the host
 
+	trace    []string // last line events, for diagnostics
 	mu       sync.Mutex
 	received []e4Block // checksum-valid blocks taken from the connection, in order (retransmissions dropped)
 	rawBlk   [][]byte  // their raw transmissions [len..checksum]
@@ -92,9 +94,19 @@ func (p *e4Peer) anomaly(s string) {
 	p.mu.Unlock()
 }
 
+func (p *e4Peer) tr(format string, a ...any) {
+	p.mu.Lock()
+	p.trace = append(p.trace, time.Now().Format("05.000")+" "+fmt.Sprintf(format, a...))
+	if len(p.trace) > 60 {
+		p.trace = p.trace[len(p.trace)-60:]
+	}
+	p.mu.Unlock()
+}
+
 func (p *e4Peer) readByte(d time.Duration) (byte, bool) {
 	select {
 	case b, ok := <-p.in:
+		p.tr("<%02x", b)
 		return b, ok
 	case <-time.After(d):
 		return 0, false
@@ -102,6 +114,11 @@ func (p *e4Peer) readByte(d time.Duration) (byte, bool) {
 }
 
 func (p *e4Peer) write(b []byte) bool {
+	if len(b) == 1 {
+		p.tr(">%02x", b[0])
+	} else {
+		p.tr(">blk[%d] %x", len(b), b[1:11])
+	}
 	_ = p.conn.SetWriteDeadline(time.Now().Add(5 * time.Second))
 	_, err := p.conn.Write(b)
 	return err == nil
@@ -166,6 +183,7 @@ func (p *e4Peer) serve(quiet, max time.Duration) {
 // sendRaw transmits one block transmission (already in wire form, possibly corrupted) with the
 // E4 handshake and contention rules. Returns 'A' (ACK), 'N' (NAK), or 'T' (gave up).
 func (p *e4Peer) sendRaw(w []byte) byte {
+	yields := 0
 	for try := 0; try < 6; try++ {
 		if !p.write([]byte{chENQ}) {
 			return 'T'
@@ -183,6 +201,9 @@ func (p *e4Peer) sendRaw(w []byte) byte {
 			case b == chENQ && !p.master: // we are the slave: yield, take the master's block, start over
 				p.write([]byte{chEOT})
 				p.takeBlock()
+				if yields++; yields < 40 {
+					try-- // E4 7.8.2.1: after a yield the postponed send is a new request, not a retry
+				}
 				goto retry
 			}
 		}
@@ -530,6 +551,11 @@ func (s *session) inbound(c *vh.Ctx, sentinelSys byte) {
 			continue
 		}
 		if res != 'A' {
+			if os.Getenv("VERIF_TRACE") != "" {
+				s.peer.mu.Lock()
+				fmt.Fprintln(os.Stderr, "TRACE (block not ACKed):\n  "+strings.Join(s.peer.trace, "\n  "))
+				s.peer.mu.Unlock()
+			}
 			c.Fail(fmt.Sprintf("a checksum-valid block was answered %q, not ACK (%s)", res, t.class), hx(t.w))
 			inconclusive = true
 			break
